@@ -52,13 +52,14 @@ def run(ctx):
     if not wname or not wdesc:
         raise AnalysisError("N1", "renderer: name/description writes not found")
 
+    from sa.template import template, shape, holes
+
     def fmt_ok(a, marker):
-        # "{}{}\n".format(marker, value)  |  "%s%s\n" % (marker, value)
-        if isinstance(a, ast.Call) and call_name(a) == "format" and isinstance(a.func.value, ast.Constant) and a.func.value.value == "{}{}\n":
-            return len(a.args) == 2 and isinstance(a.args[0], ast.Attribute) and a.args[0].attr == marker
-        if isinstance(a, ast.BinOp) and isinstance(a.left, ast.Constant) and a.left.value == "%s%s\n" and isinstance(a.right, ast.Tuple):
-            return len(a.right.elts) == 2 and isinstance(a.right.elts[0], ast.Attribute) and a.right.elts[0].attr == marker
-        return False
+        # <marker><value>\n in any spelling: "{}{}\n".format(..), "%s%s\n" % (..), f"{..}{..}\n", marker + value + "\n"
+        t = template(a)
+        hs = holes(t)
+        return shape(t) == "\0\0\n" and len(hs) == 2 and isinstance(hs[0].expr, ast.Attribute) and hs[0].expr.attr == marker \
+            and all(h.spec is None for h in hs)
     for what, (a, used, c), marker in (("name", wname, name_attr), ("description", wdesc, desc_attr)):
         if used == [marker] and fmt_ok(a, marker):
             ctx.holds("N1", "renderer writes <%s><%s>\\n" % (marker, what))
